@@ -42,7 +42,7 @@ def budget(tier):
 @st.composite
 def new_labels(draw, labs):
     kind = core.label_kind(labs)
-    mode = draw(st.sampled_from(["subset", "superset", "disjoint", "permuted", "repeated", "empty", "own", "mixed"]))
+    mode = draw(st.sampled_from(["subset", "superset", "disjoint", "permuted", "repeated", "empty", "own", "mixed", "interior", "inner-permuted"]))
     if mode == "own":
         new = list(labs)
     elif mode == "empty":
@@ -51,6 +51,9 @@ def new_labels(draw, labs):
         new = list(draw(st.permutations(labs)))
     elif mode == "repeated":
         new = draw(st.lists(st.sampled_from(labs), min_size=2, max_size=5))
+    elif mode in ("interior", "inner-permuted"):
+        # same length, same first and last label; the labels in between are other ones / the same ones in another order
+        rel, new = draw(gen.related_labels(labs, kind, relation=mode, order="asis"))
     else:
         rel, new = draw(gen.related_labels(labs, kind, relation={"subset": "subset", "superset": "superset", "disjoint": "disjoint",
                                                                     "mixed": "overlapping"}[mode], allow_empty=True))
